@@ -30,7 +30,7 @@ prop('C12',
      design_ref="DESIGN.md section 3, C12")
 
 prop('C13',
-     quick=dict(sweep=True, pbt=(16000, 700, 8), fuzz=(60000, 700, 4)),
+     quick=dict(sweep=True, pbt=(48000, 700, 10), fuzz=(160000, 700, 4)),
      thorough=dict(sweep=True, pbt=(800000, 900, 10), fuzz=(2000000, 900, 5)),
      floor=dict(quick=20000, thorough=300000), alloc_cap_mb=16,
      rule=("Forest histories: a 0..200 byte source (thorough ..2000) held in memory and in a file, optional reference-encoded VOL and CLM "
@@ -180,7 +180,7 @@ prop('C02',
      design_ref="DESIGN.md section 3, C02")
 
 prop('C05',
-     quick=dict(sweep=True, pbt=(6000, 400, 10), fuzz=(30000, 700, 5)),
+     quick=dict(sweep=True, pbt=(20000, 400, 10), fuzz=(100000, 700, 5)),
      thorough=dict(sweep=True, pbt=(300000, 600, 10), fuzz=(3000000, 900, 6), stage_timeout=3400),
      floor=dict(quick=12000, thorough=300000), alloc_cap_mb=128,
      rule=("Sweep over 5 reference-encoded VOL seeds (empty, 1 member, 4 members incl. zero-length and LZH, unused trailing slots, extra name padding), 3 CLM seeds and 6 WAV seeds: "
@@ -201,7 +201,7 @@ prop('C05',
      design_ref="DESIGN.md section 3, C05")
 
 prop('C03',
-     quick=dict(sweep=True, pbt=(5000, 700, 10), fuzz=(10000, 700, 4)),
+     quick=dict(sweep=True, pbt=(20000, 700, 10), fuzz=(40000, 700, 4)),
      thorough=dict(sweep=True, pbt=(200000, 1500, 11), fuzz=(500000, 1500, 4), stage_timeout=3400),
      floor=dict(quick=5000, thorough=100000), alloc_cap_mb=64,
      rule=("WAV sets decoded from a tape: 0..8 RIFF/WAVE files sharing a random WaveFormat, 'fmt ' chunk of 16 or 18 bytes, 'data' length from {0,1,2,3,7,64,100,4096,random<=4096 "
@@ -221,7 +221,7 @@ prop('C03',
      design_ref="DESIGN.md section 3, C03")
 
 prop('C17',
-     quick=dict(sweep=True, pbt=(1600, 500, 10), fuzz=(3000, 500, 4)),
+     quick=dict(sweep=True, pbt=(5000, 500, 10), fuzz=(9000, 500, 4)),
      thorough=dict(sweep=True, pbt=(100000, 700, 11), fuzz=(200000, 700, 4), stage_timeout=3400),
      floor=dict(quick=1500, thorough=50000), alloc_cap_mb=64,
      rule=("Directory layouts decoded from a tape inside a digit-named scratch directory: 0..6 loose files, 0..3 VOL and 0..2 CLM archives written by independent encoders, names drawn "
@@ -242,7 +242,7 @@ prop('C17',
      design_ref="DESIGN.md section 3, C17")
 
 prop('C20',
-     quick=dict(sweep=True, pbt=(1600, 200, 8)),
+     quick=dict(sweep=True, pbt=(12000, 200, 10)),
      thorough=dict(sweep=True, pbt=(60000, 200, 10), stage_timeout=3400),
      floor=dict(quick=15000, thorough=60000), alloc_cap_mb=64, case_timeout=600,
      rule=("Every case is at or just beyond an on-disk limit. Sweep (exhaustive for the layer matrix): ArtFile::Write of a frame with every 7-bit layer count 0..127 against every layer-list "
@@ -300,7 +300,7 @@ prop('C07',
      design_ref="DESIGN.md section 3, C07")
 
 prop('C16',
-     quick=dict(sweep=True, sweep_workers=4, pbt=(400, 120, 8)),
+     quick=dict(sweep=True, sweep_workers=4, pbt=(2400, 120, 10)),
      thorough=dict(sweep=True, sweep_workers=14, pbt=(6000, 120, 2), stage_timeout=3400),
      floor=dict(quick=300, thorough=1500), alloc_cap_mb=256, case_timeout=300,
      rule=("Maps built through the public route ReadMap(reference-encoded bytes) with pseudo-random tile words whose mapping index cycles through all 2048 values and 2048 distinct mapping entries. "
@@ -320,7 +320,7 @@ prop('C16',
      design_ref="DESIGN.md section 3, C16")
 
 prop('C08',
-     quick=dict(sweep=True, pbt=(30000, 700, 10), fuzz=(100000, 700, 5)),
+     quick=dict(sweep=True, pbt=(90000, 700, 10), fuzz=(300000, 700, 5)),
      thorough=dict(sweep=True, pbt=(1500000, 900, 11), fuzz=(8000000, 900, 5), stage_timeout=3400),
      floor=dict(quick=50000, thorough=1000000), alloc_cap_mb=128,
      rule=("File family: indexed bitmaps emitted by an independent encoder from a tape - depth 1/4/8, width 0..70 (every residue of row bits mod 32) plus {100,255,256,257,1000,4097}, height "
@@ -338,7 +338,7 @@ prop('C08',
      design_ref="DESIGN.md section 3, C08")
 
 prop('C09',
-     quick=dict(sweep=True, pbt=(12000, 200, 10), fuzz=(30000, 200, 4)),
+     quick=dict(sweep=True, pbt=(80000, 200, 10), fuzz=(160000, 200, 4)),
      thorough=dict(sweep=True, pbt=(500000, 200, 11), fuzz=(1500000, 200, 4), stage_timeout=3400),
      floor=dict(quick=15000, thorough=500000), alloc_cap_mb=128,
      rule=("Pictures decoded from a tape: height 32*k (k 0..8, thorough ..64), 256 pseudo-random colours (one in six grey so red==blue), pseudo-random pixels, built with the factory in BOTH scan-line "
@@ -357,7 +357,7 @@ prop('C09',
      design_ref="DESIGN.md section 3, C09")
 
 prop('C10',
-     quick=dict(sweep=True, pbt=(20000, 900, 10), fuzz=(60000, 900, 5)),
+     quick=dict(sweep=True, pbt=(60000, 900, 10), fuzz=(180000, 900, 5)),
      thorough=dict(sweep=True, pbt=(800000, 1200, 11), fuzz=(4000000, 1200, 5), stage_timeout=3400),
      floor=dict(quick=30000, thorough=800000), alloc_cap_mb=64,
      rule=("Logical PRT structures decoded from a tape and serialised by an independent encoder: 0..3 palettes (pseudo-random 1024 bytes; section headers canonical or, one in five, non-canonical but "
@@ -398,7 +398,7 @@ prop('C11',
      design_ref="DESIGN.md section 3, C11")
 
 prop('C18', extra_flavours=['varZ', 'varP'],
-     quick=dict(sweep=True, pbt=(2400, 500, 12), fuzz=(2400, 500, 3)),
+     quick=dict(sweep=True, pbt=(7200, 500, 12), fuzz=(4800, 500, 3)),
      thorough=dict(sweep=True, pbt=(240000, 700, 12), fuzz=(120000, 700, 3), stage_timeout=3400),
      floor=dict(quick=2000, thorough=100000), alloc_cap_mb=128, case_timeout=60,
      rule=("Scenarios decoded from a tape, six kinds: (0) VOL creation from 0..5 generated files + reopen listing + extraction; (1) CLM creation from 0..4 generated WAVs (chunks before/after the data) "
